@@ -48,6 +48,7 @@ BAD_LATE = (b"".join(b"password lateSecret%d\n peer 138.7.6.%d\n" % (i, i % 250)
 FAULTS = ["undecodable", "undecodable-late", "outpath-is-dir", "outparent-is-file", "dangling-symlink"]
 ORDERS = ["sorted", "reversed", "rotated"]
 OUTSTATES = ["absent", "empty-dir", "stale-file"]
+INPATHS = ["abs", "abs-trailing-sep", "relative", "dot-relative-trailing-sep", "double-sep"]
 FEATURES = ["ip", "pwd+ip"]
 
 
@@ -120,7 +121,19 @@ def setup(root, tree, faults, outstate):
     return ind, outd
 
 
-def run_dir(root, tree, faults, outstate, order, feat, entry="anonymize_files"):
+def spell(root, ind, how):
+    if how == "abs-trailing-sep":
+        return ind + os.sep
+    if how == "relative":
+        return os.path.relpath(ind, root)
+    if how == "dot-relative-trailing-sep":
+        return os.path.join(".", os.path.relpath(ind, root)) + os.sep
+    if how == "double-sep":
+        return ind + os.sep + os.sep
+    return ind
+
+
+def run_dir(root, tree, faults, outstate, order, feat, entry="anonymize_files", inpath="abs"):
     """Returns (snapshot before, snapshot after, error records, exception or None)."""
     from netconan.anonymize_files import anonymize_files
     from netconan.netconan import main
@@ -130,6 +143,7 @@ def run_dir(root, tree, faults, outstate, order, feat, entry="anonymize_files"):
     cwd = os.getcwd()
     os.chdir(root)
     exc = None
+    ind = spell(root, ind, inpath)
     try:
         with seams.capture_logs(40) as recs, seams.capture_stdio():
             with seams.walk_order(order_key(order)):
@@ -149,15 +163,15 @@ def run_dir(root, tree, faults, outstate, order, feat, entry="anonymize_files"):
     return before, after, list(recs), exc
 
 
-def judge(res, tree, faults, outstate, order, feat, rc, root_factory):
+def judge(res, tree, faults, outstate, order, feat, rc, root_factory, inpath="abs"):
     tree = list(tree)
     files = real_files(tree)
     healthy = [f for f in files if f not in faults]
     root = root_factory()
-    before, after, recs, exc = run_dir(root, tree, faults, outstate, order, feat)
+    before, after, recs, exc = run_dir(root, tree, faults, outstate, order, feat, inpath=inpath)
     res.evals += 1
     if faults or len(files) >= 2:
-        res.nt((tuple(tree), tuple(sorted(faults.items())), outstate, order, feat))
+        res.nt((tuple(tree), tuple(sorted(faults.items())), outstate, order, feat, inpath))
     tag = ",".join(sorted(set(faults.values()))) or "no-fault"
     entries = [e for e in tree]
     if not entries:
@@ -253,9 +267,18 @@ class TreesPart(Part):
 
         try:
             if "one" in case:
-                faults, outstate, order, feat = case["one"]
-                judge(res, tree, faults, outstate, order, feat, case, root_factory)
+                faults, outstate, order, feat = case["one"][:4]
+                inpath = case["one"][4] if len(case["one"]) > 4 else "abs"
+                judge(res, tree, faults, outstate, order, feat, case, root_factory, inpath)
                 return res
+            # input directory spelled in different ways (fault-free, default dimensions)
+            for inpath in INPATHS[1:]:
+                rc = {"tree": tree, "one": [{}, "absent", "sorted", "ip", inpath]}
+                try:
+                    judge(res, tree, {}, "absent", "sorted", "ip", rc, root_factory, inpath)
+                finally:
+                    shutil.rmtree(base, ignore_errors=True)
+                    os.makedirs(base, exist_ok=True)
             for faults in fault_assignments(real_files(tree), b["max_faulty_files"]):
                 for oi, outstate in enumerate(OUTSTATES):
                     for ri, order in enumerate(ORDERS):
